@@ -36,6 +36,8 @@ type storeState struct {
 	completedSnapshots []*jobSnapshot
 	pendingSnapshot    *jobSnapshot
 	checkpointID       uint64 // The last used, monotonically increasing checkpoint ID
+	// Closed when the most recent retained-checkpoints update has been received
+	lastRetainedDelivered chan struct{}
 }
 
 type NewStoreParams struct {
@@ -232,8 +234,17 @@ func (s *Store) finishSnapshotAsync(snap *jobSnapshot) (uri string, err error) {
 
 		// Notify subscribers of new list of checkpoints to retain (just the completed one)
 		if s.retainedCheckpointsUpdated != nil {
+			// Deliver the updates in publication order: each send waits for the
+			// previous one, otherwise a slow receiver could get an older list last.
+			prevDelivered := s.state.lastRetainedDelivered
+			delivered := make(chan struct{})
+			s.state.lastRetainedDelivered = delivered
 			go func() {
+				if prevDelivered != nil {
+					<-prevDelivered
+				}
 				s.retainedCheckpointsUpdated <- []uint64{snap.id}
+				close(delivered)
 			}()
 		}
 	}
